@@ -428,8 +428,24 @@ def check(case) -> Case:
         for lin in lins:
             labels.add(f"ctx[{lin}]={ctx_tag(a, lin)}")
         for d in a["ctx"]["items"]:
-            if d["attrs"]:
-                labels.add(f"item={d['type']}:{'+'.join(d['attrs'])}" + (":comment-gap" if d["gap"] is not None else ""))
+            if not d["attrs"]:
+                continue
+            if d["type"] == "mod":
+                what = "+".join(d["attrs"])
+            else:
+                tests = [i for i, x in enumerate(d["attrs"]) if x in rr.FN_TEST_ATTRS]
+                decoys = [x for x in d["attrs"] if x in rr.FN_DECOY_ATTRS]
+                if tests:
+                    what = d["attrs"][tests[0]] + ("(nearest-to-item)" if tests[0] == len(d["attrs"]) - 1 else "(other-attrs-below)")
+                elif decoys:
+                    what = "mentions-test:" + decoys[0]
+                else:
+                    what = "neutral"
+                what += f"/{len(d['attrs'])}attrs"
+            gap = ""
+            if d["gap"] is not None:
+                gap = ":comment-above-all" if d["gap"] == 0 else (":comment-before-item" if d["gap"] >= len(d["attrs"]) else ":comment-between-attrs")
+            labels.add(f"item={d['type']}:{what}{gap}")
         depth = sum(1 for d in a["ctx"]["items"] if d["type"] == "mod")
         labels.add(f"mod-depth={depth}")
     for a in atoms:
@@ -597,7 +613,7 @@ def canonical_case(lin: str, vec: dict, flavor: str) -> dict:
 
 
 def run(ctx):
-    ctx.explore(cases(allvec=not ctx.quick), check, max_examples=ctx.n(180, 260))
+    ctx.explore(cases(allvec=not ctx.quick), check, max_examples=ctx.n(140, 260))
     cells = []
     for lin in LINTERS:
         for vec in all_vectors(lin):
